@@ -18,7 +18,6 @@ type C03Monitor struct {
 	Passes           int
 }
 
-
 // phaseFails computes, from the states the pass observed, whether the phase fails its gate.
 func phaseFails(r *Runner, pv *PassView, ph PhaseView, ownerName, ownerNS string, probes []refmodel.RObjectSetProbe, cluster bool) bool {
 	if ph.Class != "" {
